@@ -649,26 +649,49 @@ Qed.
 
 Definition rv_inv (o : rvobj) : Prop := forall w, rv_w o = Some w -> w = 0.
 
+Lemma rv_wake_if_readable_inv o st av be o' wk r :
+  rv_inv o -> rv_wake_if_readable o st av be = (o', wk, r) -> rv_inv o'.
+Proof.
+  unfold rv_wake_if_readable. intros HI H. destruct (0 <? av)%N; inv H; intros x Hx; cbn in Hx;
+    [discriminate|apply HI; exact Hx].
+Qed.
+
+(* a frame that does not wake the registered reader leaves it registered with nothing to read *)
+Lemma rv_wake_if_readable_keeps o st av be o' wk r w :
+  rv_wake_if_readable o st av be = (o', wk, r) -> rv_w o = Some w -> ~ In w wk ->
+  rv_w o' = Some w /\ rv_st o' = st /\ rv_avail o' = 0%N.
+Proof.
+  unfold rv_wake_if_readable. intros H Hr Hn. destruct (0 <? av)%N eqn:E; inv H.
+  - exfalso. apply Hn. apply in_take_waker. exact Hr.
+  - cbn. apply N.ltb_ge in E. split; [exact Hr|split; [reflexivity|lia]].
+Qed.
+
 Lemma recver_discipline : discipline recver_proto rv_cond.
 Proof.
   refine (Build_discipline recver_proto rv_cond rv_inv (fun o w _ => rv_w o = Some w) _ _ _ _ _ _).
   - intros w H. discriminate.
   - intros o w a o' wk r HI H. cbn [poll recver_proto] in H. destruct (single w) eqn:Es; [|discriminate].
-    apply single_0 in Es. unfold rv_poll in H. destruct (rv_st o); try destruct (0 <? rv_avail o)%N; inv H;
-      intros x Hx; cbn in Hx; try discriminate; try (apply HI; exact Hx). inv Hx. reflexivity.
-  - intros o op o' wk r HI H. cbn [oper recver_proto] in H. unfold rv_oper in H.
-    destruct (rv_st o); destruct op; try destruct (0 <? rv_avail o + len)%N; inv H; intros x Hx; cbn in Hx;
-      try discriminate; apply HI; exact Hx.
+    apply single_0 in Es. unfold rv_poll, rv_set in H. destruct (rv_st o); try destruct (0 <? rv_avail o)%N; inv H;
+      intros x Hx; cbn in Hx; try discriminate; try (apply HI; exact Hx); inv Hx; reflexivity.
+  - intros o op o' wk r HI H. cbn [oper recver_proto] in H. unfold rv_oper, rv_set in H.
+    destruct op; repeat break_if; try discriminate;
+      try (inv H; intros x Hx; cbn in Hx; try discriminate; apply HI; exact Hx);
+      inv H; eapply rv_wake_if_readable_inv; eauto.
   - intros o w a o' wk HI H Hn. cbn [poll recver_proto] in H. destruct (single w); [|discriminate].
-    unfold rv_poll in H. destruct (rv_st o); try destruct (0 <? rv_avail o)%N; inv H. cbn. split; [reflexivity|].
-    unfold rv_cond. cbn. lia.
+    unfold rv_poll, rv_set in H. destruct (rv_st o) eqn:Est; try destruct (0 <? rv_avail o)%N; inv H; cbn;
+      (split; [reflexivity|]); unfold rv_cond; cbn; rewrite ?Est; lia.
   - intros o w' a' o' wk r w a HI H Hne Hr _ _. cbn [poll recver_proto] in H. destruct (single w') eqn:Es; [|discriminate].
     apply single_0 in Es. apply HI in Hr. congruence.
-  - intros o op o' wk r w a HI H Hr Hc Hn. cbn [oper recver_proto] in H. unfold rv_oper in H. unfold rv_cond in *.
-    destruct (rv_st o) eqn:Est; try (exfalso; apply Hc; exact I).
-    destruct op; try destruct (0 <? rv_avail o + len)%N eqn:E; inv H;
-      try (exfalso; apply Hn; apply in_take_waker; exact Hr).
-    rewrite Est. auto.
+  - intros o op o' wk r w a HI H Hr Hc Hn. cbn [oper recver_proto] in H. unfold rv_oper, rv_set in H. unfold rv_cond in *.
+    assert (Hw : forall l, ~ In w (take_waker (rv_w o) ++ l) -> False).
+    { intros l X. apply X. apply in_or_app. left. apply in_take_waker. exact Hr. }
+    assert (Hw0 : ~ In w (take_waker (rv_w o)) -> False).
+    { intros X. apply X. apply in_take_waker. exact Hr. }
+    destruct (rv_st o) eqn:Est; try (exfalso; apply Hc; exact I);
+      (destruct op; cbn [rv_live] in H; repeat break_if; try discriminate;
+       try (inv H; exfalso; apply Hw0; exact Hn);
+       try (inv H; cbn; rewrite ?Est; split; [exact Hr|exact Hc]);
+       try (inv H; edestruct rv_wake_if_readable_keeps as (A & B & C); eauto; rewrite B, C; split; [exact A|lia])).
 Qed.
 
 Lemma p_c16_recver : NoLostWakeup recver_proto rv_cond.
@@ -677,8 +700,90 @@ Proof. exact (no_lost_wakeup _ _ recver_discipline). Qed.
 Lemma p_c16_recver_observes : Observes recver_proto rv_cond.
 Proof.
   intros [o t] _ w a o' wk r Hc H. cbn [fst poll recver_proto] in *. destruct (single w); [|discriminate].
-  unfold rv_poll, rv_cond in *. destruct (rv_st o); try (inv H; discriminate).
-  apply N.ltb_lt in Hc. rewrite Hc in H. inv H. discriminate.
+  unfold rv_poll, rv_cond in *. destruct (rv_st o); try (inv H; discriminate);
+    apply N.ltb_lt in Hc; rewrite Hc in H; inv H; discriminate.
+Qed.
+
+(* SizeKnown is a resting state: the reader does park there (with a hole in front of the FIN), and
+   RESET_STREAM / the retransmission / the connection error find it there *)
+Lemma p_c16_recver_sizeknown_rests :
+  exists s, run (lift recver_proto) (linit recver_proto)
+              [@LOp recver_proto (RvLose 2); @LOp recver_proto (RvFin 2); @LPoll recver_proto 0 tt] = Some s /\
+            rv_st (fst s) = RvSizeKnown /\ rv_w (fst s) = Some 0 /\ t_sleep (snd s 0) = true /\ t_pend (snd s 0) = false.
+Proof. eexists. split; [vm_compute; reflexivity|]. cbn. repeat split. Qed.
+
+(* closing clause, stated directly on one step: RESET_STREAM, the connection error and the
+   retransmission of the missing frame invoke the Waker of whoever is parked in Recv / SizeKnown *)
+Lemma p_c16_recver_end_wakes : forall o op o' wk r w,
+  oper recver_proto o op = Some (o', wk, r) ->
+  rv_live (rv_st o) = true -> rv_w o = Some w ->
+  op = RvReset \/ op = RvConnError \/ op = RvRetx ->
+  In w wk /\ rv_w o' = None.
+Proof.
+  intros o op o' wk r w H Hl Hr Hop. cbn [oper recver_proto] in H. unfold rv_oper, rv_set in H.
+  destruct Hop as [->|[->| ->]]; try rewrite Hl in H.
+  - inv H. split; [apply in_take_waker; exact Hr|reflexivity].
+  - inv H. split; [apply in_take_waker; exact Hr|reflexivity].
+  - destruct (0 <? rv_hole o)%N; [|discriminate].
+    destruct (rv_st o); try discriminate; inv H; (split; [apply in_take_waker; exact Hr|reflexivity]).
+Qed.
+
+(* ==================================================================================== *)
+(* 17. Wakers::combine_with over an event source                                        *)
+
+Lemma cb_register_in regs w : In w (cb_register regs w).
+Proof.
+  unfold cb_register. destruct (existsb (Nat.eqb w) regs) eqn:Ee.
+  - apply existsb_exists in Ee. destruct Ee as (x & Hx & Hxe). apply Nat.eqb_eq in Hxe. subst x. exact Hx.
+  - apply in_or_app. right. left. reflexivity.
+Qed.
+
+Lemma cb_register_mono regs w x : In x regs -> In x (cb_register regs w).
+Proof.
+  unfold cb_register. intro H. destruct (existsb (Nat.eqb w) regs); [exact H|]. apply in_or_app. left. exact H.
+Qed.
+
+Lemma combine_discipline : discipline combine_proto cb_cond.
+Proof.
+  refine (Build_discipline combine_proto cb_cond (fun _ => True)
+            (fun o w _ => In w (cb_regs o) /\ cb_slot o = true /\ cb_closed o = false) _ _ _ _ _ _); auto.
+  - intros o w a o' wk _ H Hn. cbn [poll combine_proto] in H. unfold cb_poll in H.
+    destruct (cb_closed o) eqn:Ec; [inv H|].
+    pose proof (cb_register_in (cb_regs o) w) as Hin.
+    destruct a; try (inv H; contradiction);
+      destruct (0 <? cb_ready o)%N eqn:Er; inv H; try contradiction.
+    cbn. split; [split; [exact Hin|split; reflexivity]|]. unfold cb_cond. cbn. intros [X|X]; [discriminate|lia].
+  - intros o w' a' o' wk r w a _ H Hne (Hr & Hs & Hcl) Hc Hn. cbn [poll combine_proto] in H. unfold cb_poll in H.
+    rewrite Hcl in H. pose proof (cb_register_mono (cb_regs o) w' w Hr) as Hin.
+    assert (Hz : (0 <? cb_ready o)%N = false).
+    { apply N.ltb_ge. unfold cb_cond in Hc. destruct (cb_ready o); [lia|]. exfalso. apply Hc. right. lia. }
+    destruct a'; try (inv H; contradiction); rewrite Hz in H; inv H; try contradiction.
+    cbn. split; [split; [exact Hin|split; reflexivity]|]. unfold cb_cond. cbn. intros [X|X]; [discriminate|lia].
+  - intros o op o' wk r w a _ H (Hr & Hs & Hcl) Hc Hn. cbn [oper combine_proto] in H. unfold cb_oper, cb_fire in H.
+    rewrite Hcl, Hs in H. destruct op; inv H; contradiction.
+Qed.
+
+Lemma p_c16_combine : NoLostWakeup combine_proto cb_cond.
+Proof. exact (no_lost_wakeup _ _ combine_discipline). Qed.
+
+Lemma p_c16_combine_observes : Observes combine_proto cb_cond_obs.
+Proof.
+  intros [o t] _ w a o' wk r Hc H. cbn [fst poll combine_proto] in *. unfold cb_poll, cb_cond_obs, cb_cond in *.
+  destruct (cb_closed o) eqn:Ec; [inv H; discriminate|].
+  destruct a; try (destruct Hc as [Hc|Hc]; [discriminate|]; apply N.ltb_lt in Hc; rewrite Hc in H; inv H; discriminate).
+  discriminate.
+Qed.
+
+(* whenever the waker handed to the inner poll is invoked before combine_with returns Pending
+   (throttling, a datagram or a close racing with the registration), the calling task itself is
+   among the woken: it was registered BEFORE the inner poll *)
+Lemma p_c16_combine_inner_wake : forall o w a o' wk,
+  poll combine_proto o w a = Some (o', wk, Pending) -> a <> CbPlain -> In w wk.
+Proof.
+  intros o w a o' wk H Ha. cbn [poll combine_proto] in H. unfold cb_poll in H.
+  destruct (cb_closed o); [inv H|]. pose proof (cb_register_in (cb_regs o) w) as Hin.
+  destruct a; [contradiction| | |]; try (inv H; exact Hin);
+    destruct (0 <? cb_ready o)%N; inv H; exact Hin.
 Qed.
 
 (* ==================================================================================== *)
